@@ -119,7 +119,8 @@ ChildMap(m, u) == [f \in F |-> IF u[f] # ABS THEN u[f] ELSE m[f]]
 -----------------------------------------------------------------------------
 (* Actions: one per public call *)
 
-Install(S) == /\ father' = S.father /\ vals' = S.vals /\ anc' = S.anc
+Install(T) == LET S == T IN   \* evaluate the code's function once
+              /\ father' = S.father /\ vals' = S.vals /\ anc' = S.anc
               /\ lim' = S.lim /\ hc' = S.hc
 
 Init == /\ n = 0 /\ father = <<>> /\ vals = <<>> /\ anc = <<>> /\ lim = <<>> /\ hc = <<>>
